@@ -357,7 +357,8 @@ def write_replay(prop, payload):
 
 
 def write_evidence(prop, ev):
-  d = os.path.join(VERIF, 'evidence')
+  # evidence/ describes /repo only; runs against a mutated copy write next to their private Coq tree
+  d = os.path.join(VERIF, 'evidence') if os.path.realpath(REPO) == '/repo' else os.path.join(COQ, 'evidence')
   os.makedirs(d, exist_ok=True)
   with open(os.path.join(d, f'{prop}.json'), 'w') as f:
     json.dump(ev, f, indent=1, default=str)
